@@ -46,6 +46,9 @@ func lockFile(path string) (func(), error) {
 
 // ensureBase builds (once per toolchain) a GOCACHE holding the plain std
 // packages and cmd/link's dependencies, so templates start warm.
+// EnsureBase is exported for plain reference builds.
+func EnsureBase() (string, error) { return ensureBase() }
+
 func ensureBase() (string, error) {
 	base := filepath.Join(simbuild.StateDir(), "base")
 	done := filepath.Join(base, "done")
@@ -185,6 +188,9 @@ func (w *World) Load(t *Template) error {
 	w.TmplFiles = t.Files
 	return nil
 }
+
+// CpA is cp -a of directory contents.
+func CpA(src, dst string) error { return cpA(src, dst) }
 
 // cpA copies directory contents with cp -a (fast path for big caches).
 func cpA(src, dst string) error {
